@@ -142,6 +142,8 @@ def pool(rng, quick):
     while len(out) < (8 if quick else 40):
         g = gen.stopping_game(rng, n_inner=rng.randint(1, 6)) if k % 3 else gen.dead_shape_game(rng, rng.choice([P1, PR]), rng.choice([(0, 1), (1, 0, 1), (1, 1, 0), (0, 1, 1, 0)]))
         k += 1
+        if k % 4 == 0:
+            g = gen.with_odd_labels(g, rng)[0]               # action names with braces, %, quotes, backslash, newline
         out.append(("g", gen.desc(g)))
     # malformed ones
     base = out[0][1]
